@@ -1,7 +1,7 @@
 import MazeVerif.Model.WilsonProb
 /-! The exact probability tables of C19 for the small grids, closed by evaluating the executable model with compiled
     code (`native_decide`: adds the axioms `Lean.ofReduceBool` / `Lean.trustCompiler`, named in the trusted base).
-    `C19Tables.lean` and `C19Table33.lean` are the ONLY files of the library in which `native_decide` may appear.
+    `C19Tables.lean`, `C19Table33.lean` and `C19Table24.lean` are the ONLY files of the library in which `native_decide` may appear.
     Each line says: the grid has exactly `N` spanning trees (duplicate-free list), and the exact law of the step
     machine after `n0` draws gives each of them a probability in `[1/N - 10⁻⁹, 1/N]` and leaves at most `10⁻⁹`
     unfinished. -/
